@@ -347,3 +347,27 @@ Example C07_option82_build_roundtrip_nonvacuous :
   build_opt82 [101; 116; 104; 49] [109; 97; 99] (Some 1) = [82; 14; 1; 4; 101; 116; 104; 49; 2; 3; 109; 97; 99; 10; 1; 1].
 Proof. exact opt82_roundtrip_nonvacuous. Qed.
 Print Assumptions C07_option82_build_roundtrip_nonvacuous.
+
+(* ---- DHCPv4: plugins/dhcp4/local buildDHCPv4Reply + optionWriter.addByte, then dhcp4.ParseMessage ---- *)
+Theorem C07_dhcp4_message_roundtrip :
+  forall xid ci yi si ch mt opts, wf_reply4 xid ci yi si ch opts = true ->
+  parse_message4 (build_reply4 xid ci yi si ch mt opts) =
+  (o <- o4_fold ((53, [mt]) :: opts) o4_0;;
+   Ok (mkM4 2 1 6 0 xid 0 0 ci yi si (repeat 0 4) ch (repeat 0 64) (repeat 0 128) true o)).
+Proof. exact dhcp4_roundtrip. Qed.
+Print Assumptions C07_dhcp4_message_roundtrip.
+Example C07_dhcp4_message_roundtrip_nonvacuous :
+  wf_reply4 305419896 [0; 0; 0; 0] [10; 0; 0; 2] [10; 0; 0; 1] [2; 0; 0; 0; 0; 1]
+            [(54, [10; 0; 0; 1]); (51, [0; 0; 14; 16]); (1, [255; 255; 255; 0]); (3, [10; 0; 0; 1]); (6, [8; 8; 8; 8; 1; 1; 1; 1])] = true /\
+  (exists o, o4_fold [(53, [5]); (54, [10; 0; 0; 1]); (51, [0; 0; 14; 16]); (1, [255; 255; 255; 0]); (3, [10; 0; 0; 1]);
+                      (6, [8; 8; 8; 8; 1; 1; 1; 1])] o4_0 = Ok o /\
+             q_type o = 5 /\ q_lease o = 3600 /\ q_dns o = [[8; 8; 8; 8]; [1; 1; 1; 1]]).
+Proof. exact dhcp4_roundtrip_nonvacuous. Qed.
+Print Assumptions C07_dhcp4_message_roundtrip_nonvacuous.
+(* the round trip is FALSE beyond 255 bytes per option value (wf_opt4 excludes it): the writer splits the value per
+   RFC 3396, the parser does not concatenate.  64 DNS servers are built, 63 come back. *)
+Theorem C07_dhcp4_split_roundtrip_refuted :
+  exists m, parse_message4 (build_reply4 1 [0; 0; 0; 0] [10; 0; 0; 2] [10; 0; 0; 1] [2; 0; 0; 0; 0; 1] 5 [(6, dns64)]) = Ok m /\
+            length (q_dns (w_opts m)) = 63%nat /\ lenN dns64 = 4 * 64.
+Proof. exact dhcp4_split_refuted. Qed.
+Print Assumptions C07_dhcp4_split_roundtrip_refuted.
